@@ -40,6 +40,9 @@ inductive Atom where
   | sendOk                -- `ch <- op` can proceed (non-blocking send in `enqueue`)
   | isMeta                -- `c.Type == api.MetaType`
   | isRemote              -- `c.IsRemotePin(spt.peerID)`
+  | notFound              -- `err == state.ErrNotFound` after `st.Get`
+  | lsOk                  -- `err == nil` after the RPC `IPFSConnector.PinLsCid`
+  | ipfsUnpinned          -- `ips.ToTrackerStatus() == TrackerStatusUnpinned`
   | unknown
   deriving DecidableEq, Repr
 
@@ -51,6 +54,7 @@ inductive Act where
   | pinDefault | pinRecorded | enqueuePin | enqueueUnpin
   | trackNewQ | trackNewRemote | chPin | chUnpin | send | errFull | retErr | clean       -- round 8c: enqueue / Track
   | retEnqueuePin | retEnqueueUnpinCid | getExists | retRecOp | retRecStatus
+  | retOp | addError | retInfo | setStatus (s : Status) | setIpfs | pinLsCid              -- round 8c: Tracker.Status
   | unknown
   deriving DecidableEq, Repr
 
@@ -308,6 +312,49 @@ def recoverT (t : Table) (cfg : Cfg) (s : State) (c : Nat) : Option (State × Re
   | some [.getExists, .retRecOp], some i => some (recoverWith cfg s c (opStatus (s.ops i)))
   | some [.getExists, .retRecStatus], none => some (recoverWith cfg s c (statusOf s c))
   | _, _ => none
+
+/-! ### round 8c: `Tracker.Status` -/
+
+def envStatus (found stateOk notFound getOk : Bool) (k : Kind) (lsOk unp : Bool) : Atom → Bool
+  | .found => found
+  | .stateOk => stateOk
+  | .notFound => notFound
+  | .getOk => getOk
+  | .isMeta => k == .sharded
+  | .isRemote => k == .remote
+  | .lsOk => lsOk
+  | .ipfsUnpinned => unp
+  | _ => false
+
+/-- the `Status` field of the PinInfo a path of `Tracker.Status` returns. `op` = the table entry's status (`GetExists`), `ipfs` = what
+    `ToTrackerStatus` made of the daemon's answer, `cur` = the field so far (zero value `TrackerStatusUndefined`), `asked` = the daemon was
+    asked (`setIpfs` without a `PinLsCid` call has no meaning). `addError` writes cluster_error (table `addError`). -/
+def execStatus (op ipfs : Status) : List Act → Status → Bool → Option Status
+  | [], _, _ => none
+  | .getExists :: r, cur, a => execStatus op ipfs r cur a
+  | .pinLsCid :: r, cur, _ => execStatus op ipfs r cur true
+  | .addError :: r, _, a => execStatus op ipfs r .clusterError a
+  | .setStatus st :: r, _, a => execStatus op ipfs r st a
+  | .setIpfs :: r, _, true => execStatus op ipfs r ipfs true
+  | .retOp :: _, _, _ => some op
+  | .retInfo :: _, cur, _ => some cur
+  | _, _, _ => none
+
+/-- `Tracker.Status(c)` as the regenerated table says, on a model state; `ls` = the daemon's read works; `stateOk` / `getOk` = the shared
+    state can be read (always true in the model's runs: the harness's state never fails) -/
+def statusTbl (t : Table) (s : State) (ls : Bool) (c : Nat) (stateOk getOk : Bool := true) : Option Status :=
+  let op := match s.cur c with
+    | some i => opStatus (s.ops i)
+    | none => .undefined
+  let k := match s.shared c with
+    | some p => p.kind
+    | none => .here
+  let held := match s.shared c with
+    | some p => heldAs s c p.mode
+    | none => false
+  match firstRow t (envStatus (s.cur c).isSome stateOk (s.shared c).isNone getOk k ls (!held)) with
+  | some acts => execStatus op (if held then .pinned else .unpinned) acts .undefined false
+  | none => none
 
 def allStatuses : List Status :=
   [.pinned, .pinning, .pinQueued, .pinError, .unpinned, .unpinning, .unpinQueued, .unpinError,
